@@ -161,10 +161,26 @@ func (r *run) ctl() {
 	// Let the reader empty the receive queue before anything polls the TNC again
 	// (see pump: a full queue plus a poll wedges the library on a mutex and with
 	// it the simulated clock; in real time the reader would simply catch up).
-	if p.Regime == "burst" {
-		r.pause(r.giveUpAfter()) // whatever the last burst left in flight has arrived by then
+	// Quiet period: whatever the script sent last has arrived by then.
+	quiet := r.giveUpAfter()
+	if p.Script.End == "remote-disconnect" {
+		quiet += ms(p.Script.EndDelayMs)
 	}
+	r.pause(quiet)
+	// Let the reader empty the receive queue before anything polls the TNC again
+	// (see pump: a full queue plus a poll wedges the library on a mutex and with
+	// it the simulated clock; in real time the reader would simply catch up).
 	readerIdle := r.waitReaderIdle()
+	r.mu.Lock()
+	if s := r.sess; s != nil && r.have && readerIdle && r.pumpDone && r.readStarted {
+		// everything the TNC sent has had time to arrive and the reader is waiting
+		// for more: what it has not got by now it will never get
+		r.settled = true
+		r.settledRead = len(r.readData)
+		r.settledSent, _ = s.SentBytes(r.key)
+		r.settledAt = r.sim.Now()
+	}
+	r.mu.Unlock()
 	switch p.Script.End {
 	case "remote-disconnect":
 		// the script disconnects after its last frame; wait for the reader to see it
